@@ -200,10 +200,13 @@ def eval_sequence(seq: Tuple[int, ...], reader: str, tally: Tally) -> List[Viola
     # "1 byte" or "all but one byte", are explored; the whole data is there, so every message must
     # be read back.
     probe = _ShortReader(full, {}, "one")
-    for k, i in enumerate(seq):
-        cls, mdef = reader_cls(bp, ALPHABET[i][0], reader)
-        cls().load(probe, betterproto.SIZE_DELIMITED)
-    points = probe.points
+    try:
+        for k, i in enumerate(seq):
+            cls, mdef = reader_cls(bp, ALPHABET[i][0], reader)
+            cls().load(probe, betterproto.SIZE_DELIMITED)
+        points = probe.points
+    except Exception:
+        points = []  # the uncut stream does not load at all: reported by the cut loop above
     schedules = [()] + [(p,) for p in points] + list(itertools.combinations(points, 2))
     for sched in schedules:
         for mode in ("one", "allbutone"):
